@@ -18,6 +18,7 @@ def plan(tier, seed):
                                                    "api.ParquetFile.__setstate__", "api.ParquetFile._dtypes"]))
     jobs.append(ch("C17", "vf/pyshim/h_c17.py", "h_time_dtype", t if "C17" == "C17" else (90 if tier == "quick" else 300), ["api.ParquetFile._dtypes (timestamp branch)", "api.ParquetFile.__getstate__", "api.ParquetFile.__setstate__", "api.ParquetFile.pre_allocate"]))
     jobs.append(ch("C17", "vf/pyshim/h_c17.py", "h_time_index", t, ["api.ParquetFile.pre_allocate", "api._pre_allocate"]))
+    jobs.append(ch("C17", "vf/pyshim/h_c17.py", "h_cat_order_flags", 90, ["api.ParquetFile.pre_allocate", "dataframe.empty (categorical placeholders)"]))
     from . import cats
     jobs += cats.jobs("C17", tier)
     jobs.append(ch("C17", F, "h_prealloc", t, ["api.ParquetFile.pre_allocate", "api._pre_allocate",
